@@ -35,6 +35,11 @@ func materialise(root string, c impCase, variant int, rootFile ...string) (extra
 		if i == 1 && len(rootFile) > 0 {
 			return rootFile[0]
 		}
+		if len(rootFile) > 1 && rootFile[1] != "" {
+			// file names that merely begin like a URL scheme ("http-f2.yaml") are files
+			p := filePath(i)
+			return filepath.Join(filepath.Dir(p), rootFile[1]+filepath.Base(p))
+		}
 		return filePath(i)
 	}
 	for i := 1; i <= c.NF; i++ {
@@ -73,7 +78,10 @@ func materialise(root string, c impCase, variant int, rootFile ...string) (extra
 				case n == "x":
 					target = filepath.Join(filepath.Dir(p), fmt.Sprintf("x%d.yaml", i))
 				case n == "a" && variant == 3:
-					body = fmt.Sprintf("import:\n  - ../x%d.yaml\n", i) + body
+					// (the sibling b.yaml, which sorts after a.yaml, is imported too: every file once)
+					body = fmt.Sprintf("import:\n  - ../x%d.yaml\n  - b.yaml\n", i) + body
+				case n == "b" && variant == 3:
+					body += fmt.Sprintf("pipelines:\n  pb%d:\n    - task: %s\n", i, tn)
 				}
 				_ = ioutil.WriteFile(target, []byte(body), 0o644)
 				inClosure := false
@@ -163,7 +171,14 @@ func CheckC17(env *core.Env, rep *core.Report) *core.Result {
 		if defaultName {
 			rootFile = "tasks.yaml" // file 1 under the name taskctl looks for by default
 		}
-		extra := materialise(root, c, variant, rootFile)
+		prefix := ""
+		if i%7 == 3 {
+			prefix = "http-"
+			if !defaultName {
+				rootFile = prefix + rootFile
+			}
+		}
+		extra := materialise(root, c, variant, rootFile, prefix)
 		rootArg := filepath.Join(root, rootFile)
 		if i%2 == 1 {
 			rootArg = rootFile // the root given relative to the working directory
